@@ -1490,6 +1490,17 @@ def _calculate_divisions(statistics, dataset_info, npartitions):
             ):
                 if sorted_column_info["name"] in index:
                     divisions = sorted_column_info["divisions"]
+                    # ``sorted_columns`` accepts a part that starts with the last
+                    # value of the previous one, but that value would then be
+                    # looked up in one of the two partitions only
+                    maxes = [
+                        col["max"]
+                        for stats in statistics
+                        for col in stats["columns"]
+                        if col["name"] == sorted_column_info["name"]
+                    ]
+                    if any(mx == nxt for mx, nxt in zip(maxes, divisions[1:-1])):
+                        divisions = None
                     break
 
     return divisions or (None,) * (npartitions + 1)
